@@ -335,12 +335,16 @@ class Check:
 
     def write_replay(self, kind, case, detail):
         os.makedirs(os.path.join(VERIF, "replays"), exist_ok=True)
-        blob = json.dumps({"property": self.ident, "kind": kind, "case": self.show(case) if case is not None else None,
+        shown = None
+        if case is not None:
+            # cases of additional parts (extra_checks) are plain dicts already
+            shown = _jsonable(case) if (isinstance(case, dict) and case.get("_extra")) else self.show(case)
+        blob = json.dumps({"property": self.ident, "kind": kind, "case": shown,
                            "detail": detail}, sort_keys=True, default=repr)
         h = hashlib.sha1(blob.encode()).hexdigest()[:12]
         path = os.path.join(VERIF, "replays", f"{self.ident}-{h}.json")
         doc = {"property": self.ident, "kind": kind,
-               "case": self.show(case) if case is not None else None,
+               "case": shown,
                "case_pickle": _pickle_b64(case) if case is not None else None,
                "detail": detail, "seed": self.seed,
                "replay_cmd": f"./check {self.ident} --replay {path}"}
